@@ -148,7 +148,7 @@ func viewOfDir(dir string) (v c06View, clocks map[string]uint64, openErr error) 
 			v.Errors = append(v.Errors, "identity: "+st.Err.Error())
 			continue
 		}
-		v.Idens[st.Entity.Name()] += fmt.Sprintf("%s:%d;", st.Entity.Email(), len(st.Entity.LastModificationLamports()))
+		v.Idens[st.Entity.Name()] += fmt.Sprintf("%s/%s:%d;", st.Entity.Email(), st.Entity.Login(), len(st.Entity.LastModificationLamports()))
 	}
 	for st := range bug.ReadAll(repo) {
 		if st.Err != nil {
@@ -570,6 +570,8 @@ func c06Scenarios(c *runCtx, r *rng) []*c06Scenario {
 	bug.Push(other, "origin")
 	// the other clone also changes an identity and adds one: a pull has identities to merge
 	oa.Mutate(other, func(m *identity.Mutator) { m.Login = "changed-remotely" })
+	// (two versions in one go: a merge on the pulling side has to fast-forward over both)
+	oa.Mutate(other, func(m *identity.Mutator) { m.Email = "changed-remotely@example.com" })
 	if oa.NeedCommit() {
 		oa.Commit(other)
 	}
@@ -666,6 +668,10 @@ func c06Scenarios(c *runCtx, r *rng) []*c06Scenario {
 			return nil
 		}
 		if err := i.Mutate(repo, func(m *identity.Mutator) { m.Email = "changed@example.com" }); err != nil {
+			return err
+		}
+		// a second pending version: one Commit writes both
+		if err := i.Mutate(repo, func(m *identity.Mutator) { m.Login = "changed-login" }); err != nil {
 			return err
 		}
 		return i.Commit(repo)
